@@ -8,6 +8,7 @@ import (
 	"encoding/json"
 	"fmt"
 	"os"
+	"regexp"
 	"strconv"
 	"strings"
 	"testing"
@@ -89,11 +90,26 @@ func recycle() {
 
 type objSpec struct {
 	ID     string      `json:"id"`
-	Kind   int         `json:"kind"` // 0 string, 1 point, 2 bounds, 3 polygon, 4 point with z
+	Kind   int         `json:"kind"` // 0 string, 1 point, 2 bounds, 3 polygon, 4 point with z, 5 long LineString, 6 MultiPoint, 7 big polygon
 	Lat    int         `json:"lat"`  // hundredths of a degree
 	Lon    int         `json:"lon"`
 	Size   int         `json:"size"`
+	Pts    [][2]int    `json:"pts,omitempty"` // kinds 5,6: lon,lat in hundredths of a degree
 	Fields [][2]string `json:"fields,omitempty"`
+}
+
+func ptsText(pts [][2]int) string {
+	ps := make([]string, len(pts))
+	for i, p := range pts {
+		ps[i] = "[" + deg(p[0]) + "," + deg(p[1]) + "]"
+	}
+	return strings.Join(ps, ",")
+}
+
+// ring is a closed axis-aligned rectangle ring (hundredths of a degree).
+func ring(x0, y0, x1, y1 int) string {
+	return fmt.Sprintf("[[%s,%s],[%s,%s],[%s,%s],[%s,%s],[%s,%s]]",
+		deg(x0), deg(y0), deg(x1), deg(y0), deg(x1), deg(y1), deg(x0), deg(y1), deg(x0), deg(y0))
 }
 
 func deg(h int) string { return strconv.FormatFloat(float64(h)/100, 'f', -1, 64) }
@@ -112,6 +128,12 @@ func (o objSpec) setArgs(key string) []string {
 		a = append(a, "POINT", deg(o.Lat), deg(o.Lon), strconv.Itoa(o.Size))
 	case 2:
 		a = append(a, "BOUNDS", deg(o.Lat), deg(o.Lon), deg(o.Lat+o.Size*50), deg(o.Lon+o.Size*50))
+	case 5:
+		a = append(a, "OBJECT", `{"type":"LineString","coordinates":[`+ptsText(o.Pts)+`]}`)
+	case 6:
+		a = append(a, "OBJECT", `{"type":"MultiPoint","coordinates":[`+ptsText(o.Pts)+`]}`)
+	case 7:
+		a = append(a, "OBJECT", `{"type":"Polygon","coordinates":[`+ring(o.Lon, o.Lat, o.Lon+(o.Size+2)*150, o.Lat+(o.Size+2)*120)+`]}`)
 	default:
 		x0, y0, x1, y1 := deg(o.Lon), deg(o.Lat), deg(o.Lon+o.Size*50+10), deg(o.Lat+o.Size*50+10)
 		a = append(a, "OBJECT", fmt.Sprintf(`{"type":"Polygon","coordinates":[[[%s,%s],[%s,%s],[%s,%s],[%s,%s],[%s,%s]]]}`,
@@ -134,10 +156,16 @@ func drawObjects(t *rapid.T) []objSpec {
 		n = rapid.IntRange(61, ev.Pick(320, 700)).Draw(t, "n")
 	}
 	dup := rapid.Bool().Draw(t, "duplicate-positions")
+	kinds := []int{0, 0, 0, 1, 1, 1, 2, 3, 4}
+	if rapid.IntRange(0, 2).Draw(t, "spanning-objects") != 0 {
+		// objects whose rectangle reaches over several degrees: candidates of
+		// more than one part of a multi-part query area
+		kinds = []int{0, 0, 1, 1, 1, 2, 3, 4, 5, 5, 5, 6, 6, 7}
+	}
 	objs := make([]objSpec, n)
 	for i := range objs {
 		o := objSpec{ID: rapid.SampledFrom(idPrefixes).Draw(t, "idp") + strconv.Itoa(i)}
-		o.Kind = rapid.SampledFrom([]int{0, 0, 0, 1, 1, 1, 2, 3, 4}).Draw(t, "kind")
+		o.Kind = rapid.SampledFrom(kinds).Draw(t, "kind")
 		if dup {
 			// a handful of positions: many ties in NEARBY distance
 			o.Lat = rapid.IntRange(-2, 2).Draw(t, "lat") * 100
@@ -147,6 +175,15 @@ func drawObjects(t *rapid.T) []objSpec {
 			o.Lon = rapid.IntRange(-1000, 1000).Draw(t, "lon")
 		}
 		o.Size = rapid.IntRange(0, 6).Draw(t, "size")
+		if o.Kind == 5 || o.Kind == 6 {
+			np := rapid.IntRange(2, 4).Draw(t, "npts")
+			x, y := o.Lon, o.Lat
+			for j := 0; j < np; j++ {
+				o.Pts = append(o.Pts, [2]int{x, y})
+				x += rapid.IntRange(-900, 900).Draw(t, "dx")
+				y += rapid.IntRange(-900, 900).Draw(t, "dy")
+			}
+		}
 		if rapid.IntRange(0, 4).Draw(t, "hasf") != 0 {
 			o.Fields = append(o.Fields, [2]string{"f", strconv.Itoa(rapid.IntRange(0, 5).Draw(t, "f"))})
 		}
@@ -227,7 +264,9 @@ func drawArea(t *rapid.T, cmd string) []string {
 		}
 		return a
 	}
-	switch rapid.IntRange(0, 3).Draw(t, "areakind") {
+	switch rapid.IntRange(0, 7).Draw(t, "areakind") {
+	case 4, 5, 6, 7:
+		return []string{"OBJECT", drawMultiPartArea(t)}
 	case 0:
 		return []string{"BOUNDS", "-90", "-180", "90", "180"}
 	case 1:
@@ -243,8 +282,74 @@ func drawArea(t *rapid.T, cmd string) []string {
 	}
 }
 
+// drawMultiPartArea draws a query area made of several parts (or a polygon
+// with a hole): the kinds for which a search may consult the index once per
+// part. Lines in areas have a single segment (a multi-segment LineString area
+// can send WITHIN into the listed known hang of the geometry library).
+func drawMultiPartArea(t *rapid.T) string {
+	c := func(lbl string) int {
+		if rapid.IntRange(0, 3).Draw(t, lbl+"grid") == 0 {
+			return rapid.IntRange(-3, 3).Draw(t, lbl) * 100 // on the grid the stacked datasets use
+		}
+		return rapid.IntRange(-1200, 1100).Draw(t, lbl)
+	}
+	square := func() string {
+		x0, y0 := c("sx"), c("sy")
+		return "[" + ring(x0, y0, x0+rapid.IntRange(50, 1000).Draw(t, "sw"), y0+rapid.IntRange(50, 1000).Draw(t, "sh")) + "]"
+	}
+	polygon := func() string { return `{"type":"Polygon","coordinates":` + square() + `}` }
+	line := func() string {
+		return `{"type":"LineString","coordinates":[[` + deg(c("lx0")) + "," + deg(c("ly0")) + "],[" + deg(c("lx1")) + "," + deg(c("ly1")) + `]]}`
+	}
+	point := func() string { return `{"type":"Point","coordinates":[` + deg(c("px")) + "," + deg(c("py")) + `]}` }
+	list := func(lbl string, min, max int, f func() string) string {
+		n := rapid.IntRange(min, max).Draw(t, lbl)
+		xs := make([]string, n)
+		for i := range xs {
+			xs[i] = f()
+		}
+		return strings.Join(xs, ",")
+	}
+	anyGeom := func() string {
+		switch rapid.IntRange(0, 3).Draw(t, "gkind") {
+		case 0:
+			return line()
+		case 1:
+			return point()
+		}
+		return polygon()
+	}
+	switch rapid.IntRange(0, 9).Draw(t, "multikind") {
+	case 0, 1, 2:
+		return `{"type":"MultiPolygon","coordinates":[` + list("nsq", 2, 6, square) + `]}`
+	case 3:
+		return `{"type":"GeometryCollection","geometries":[` + polygon() + "," + line() + "," + point() + `]}`
+	case 4:
+		return `{"type":"GeometryCollection","geometries":[` + list("ngeom", 2, 5, anyGeom) + `]}`
+	case 5:
+		return `{"type":"FeatureCollection","features":[` + list("nfeat", 2, 4, func() string {
+			return `{"type":"Feature","geometry":` + anyGeom() + `,"properties":{}}`
+		}) + `]}`
+	case 6:
+		return `{"type":"MultiLineString","coordinates":[` + list("nlines", 2, 4, func() string {
+			return "[[" + deg(c("mx0")) + "," + deg(c("my0")) + "],[" + deg(c("mx1")) + "," + deg(c("my1")) + "]]"
+		}) + `]}`
+	case 7:
+		return `{"type":"MultiPoint","coordinates":[` + list("nmp", 2, 6, func() string {
+			return "[" + deg(c("qx")) + "," + deg(c("qy")) + "]"
+		}) + `]}`
+	case 8:
+		return `{"type":"Feature","geometry":{"type":"MultiPolygon","coordinates":[` + list("nsq", 2, 6, square) + `]},"properties":{}}`
+	default:
+		// polygon with a hole
+		x0, y0 := c("hx"), c("hy")
+		w, h := rapid.IntRange(400, 1600).Draw(t, "hw"), rapid.IntRange(400, 1600).Draw(t, "hh")
+		return `{"type":"Polygon","coordinates":[` + ring(x0, y0, x0+w, y0+h) + "," + ring(x0+w/4, y0+h/4, x0+w/2, y0+h/2) + `]}`
+	}
+}
+
 func drawQuery(t *rapid.T) query {
-	q := query{Cmd: rapid.SampledFrom([]string{"SCAN", "SCAN", "SEARCH", "WITHIN", "INTERSECTS", "NEARBY", "NEARBY"}).Draw(t, "cmd")}
+	q := query{Cmd: rapid.SampledFrom([]string{"SCAN", "SCAN", "SEARCH", "WITHIN", "WITHIN", "INTERSECTS", "INTERSECTS", "NEARBY", "NEARBY"}).Draw(t, "cmd")}
 	nf := rapid.SampledFrom([]int{0, 0, 1, 1, 1, 1, 2, 2, 3}).Draw(t, "nfilters")
 	for i := 0; i < nf; i++ {
 		q.Filters = append(q.Filters, drawFilter(t, q.Cmd))
@@ -434,6 +539,24 @@ func runPageCase(t failer, c *ev.Collector, d pageCase) (labels []string, nontri
 	}
 
 	labels = append(labels, "cmd:"+d.Q.Cmd, "output:"+out)
+	if len(d.Q.Area) == 2 && d.Q.Area[0] == "OBJECT" {
+		if m := areaTypeRE.FindStringSubmatch(d.Q.Area[1]); m != nil {
+			labels = append(labels, "area:"+m[1])
+			if m[1] != "Polygon" || strings.Count(d.Q.Area[1], "[[[") == 0 || strings.Contains(d.Q.Area[1], "]],[[") {
+				if pagesWithItems >= 2 {
+					labels = append(labels, "multi-part-area-paged-over-2+-pages")
+				}
+			}
+		}
+	} else if len(d.Q.Area) > 0 {
+		labels = append(labels, "area:"+d.Q.Area[0])
+	}
+	for _, o := range d.Objs {
+		if o.Kind >= 5 {
+			labels = append(labels, "dataset-has-spanning-objects")
+			break
+		}
+	}
 	if jm {
 		labels = append(labels, "json-mode")
 	}
@@ -501,6 +624,8 @@ func compare(got, full []string) (class, what string) {
 	return "", ""
 }
 
+var areaTypeRE = regexp.MustCompile(`^\{"type":"(\w+)"`)
+
 func clip(s string) string {
 	if len(s) > 120 {
 		return s[:120] + "..."
@@ -511,7 +636,7 @@ func clip(s string) string {
 func TestC11_Pagination(t *testing.T) {
 	c := ev.New("C11", "pagination", "exploration")
 	t.Cleanup(c.Flush)
-	c.Rule("per case a fresh collection of 0-12 (30%), 13-60 (50%) or 61-320 (quick) / 61-700 (thorough) objects (strings with few distinct values, points incl. z, bounds, polygons; scattered over +-10 degrees or stacked on 25 positions; fields f in 0..5 or missing, g in x,y,Z or missing; ids = one of six prefixes + index so that globs select interleaved subsets), then one query SCAN / SEARCH / WITHIN / INTERSECTS (whole world, random BOUNDS, CIRCLE, polygon OBJECT) / NEARBY POINT (with or without radius) x 0-3 filters (MATCH from 14 id globs (10 value globs for SEARCH) with and without a range prefix, WHERE range / operator / expression, WHEREIN, WHEREEVAL) x ASC/DESC x output IDS/OBJECTS/POINTS/BOUNDS/HASHES x NOFIELDS x DISTANCE, in RESP or (for IDS / NOFIELDS) JSON mode. LIMIT is chosen after the full result size r is known from {1,2,3,r-1,r,r+1,n,n+1,random 1..r+1}. Oracle: concatenation of the pages obtained by feeding CURSOR back until it is 0 == the reply of the same query with LIMIT 10^9, item by item; no page longer than LIMIT; cursors strictly increase; at most r+2 round trips. Non-trivial: at least two pages carry items and some returned cursor exceeds the number of items returned so far (the filter/area rejected an iterated object, so the cursor counts iterated, not returned, entries); distinct by (query, limit, result size, cursor trace).")
+	c.Rule("per case a fresh collection of 0-12 (30%), 13-60 (50%) or 61-320 (quick) / 61-700 (thorough) objects (strings with few distinct values, points incl. z, bounds, polygons, and in 2 of 3 cases objects spanning several degrees: 2-4 point LineStrings, MultiPoints, big polygons; scattered over +-10 degrees or stacked on 25 positions; fields f in 0..5 or missing, g in x,y,Z or missing; ids = one of six prefixes + index so that globs select interleaved subsets), then one query SCAN / SEARCH / WITHIN / INTERSECTS (whole world, random BOUNDS, CIRCLE, polygon OBJECT, and in half of the cases a multi-part OBJECT: MultiPolygon of 2-6 disjoint/overlapping squares also wrapped in a Feature, GeometryCollection of polygon+line+point or 2-5 mixed parts, FeatureCollection of 2-4 features, MultiLineString, MultiPoint, polygon with a hole) / NEARBY POINT (with or without radius) x 0-3 filters (MATCH from 14 id globs (10 value globs for SEARCH) with and without a range prefix, WHERE range / operator / expression, WHEREIN, WHEREEVAL) x ASC/DESC x output IDS/OBJECTS/POINTS/BOUNDS/HASHES x NOFIELDS x DISTANCE, in RESP or (for IDS / NOFIELDS) JSON mode. LIMIT is chosen after the full result size r is known from {1,2,3,r-1,r,r+1,n,n+1,random 1..r+1}. Oracle: concatenation of the pages obtained by feeding CURSOR back until it is 0 == the reply of the same query with LIMIT 10^9, item by item; no page longer than LIMIT; cursors strictly increase; at most r+2 round trips. Non-trivial: at least two pages carry items and some returned cursor exceeds the number of items returned so far (the filter/area rejected an iterated object, so the cursor counts iterated, not returned, entries); distinct by (query, limit, result size, cursor trace).")
 	ev.Rapid("pagination", ev.Pick(8000, 60000))
 	rapid.Check(t, func(rt *rapid.T) {
 		d := pageCase{
